@@ -27,6 +27,17 @@ use std::{
 const MISMATCH: u64 = 999_999_999_999;
 const REP_MAX: u64 = 20000;
 const BIG: u64 = 1_000_000;
+/// script entries >= SPECIAL: SPECIAL = the carrier call returns Ok(0); SPECIAL + k = Err(kind k)
+const SPECIAL: u64 = 1 << 40;
+
+fn kind_of(code: u64) -> io::ErrorKind {
+    match code {
+        6 => io::ErrorKind::ConnectionReset,
+        7 => io::ErrorKind::BrokenPipe,
+        8 => io::ErrorKind::TimedOut,
+        _ => io::ErrorKind::Other,
+    }
+}
 
 #[derive(Default)]
 struct Shared {
@@ -40,6 +51,10 @@ struct Shared {
     wire: Vec<u8>,
     avail: usize,
     pulled: usize,
+    /// the most recent carrier call of side i returned Pending (reset by the harness before every socket poll)
+    last_pending: [bool; 2],
+    /// the carrier's write half (side 0) has been closed
+    closed: bool,
 }
 
 struct Carrier {
@@ -62,9 +77,15 @@ impl AsyncRead for Carrier {
             }
             return Poll::Ready(Ok(n));
         }
+        sh.last_pending[1] = false;
         match sh.rscript.pop_front() {
             None => Poll::Ready(Ok(0)),
-            Some(0) => Poll::Pending,
+            Some(0) => {
+                sh.last_pending[1] = true;
+                Poll::Pending
+            }
+            Some(SPECIAL) => Poll::Ready(Ok(0)),
+            Some(n) if n > SPECIAL => Poll::Ready(Err(kind_of(n - SPECIAL).into())),
             Some(n) => {
                 let k = (n as usize).min(buf.len()).min(sh.avail - sh.pulled);
                 let p = sh.pulled;
@@ -87,12 +108,21 @@ impl AsyncWrite for Carrier {
             }
             return Poll::Ready(Ok(buf.len()));
         }
+        sh.last_pending[0] = false;
+        if sh.closed {
+            return Poll::Ready(Err(io::ErrorKind::BrokenPipe.into()));
+        }
         match sh.wscript.pop_front() {
             None => {
                 sh.written.extend_from_slice(buf);
                 Poll::Ready(Ok(buf.len()))
             }
-            Some(0) => Poll::Pending,
+            Some(0) => {
+                sh.last_pending[0] = true;
+                Poll::Pending
+            }
+            Some(SPECIAL) => Poll::Ready(Ok(0)),
+            Some(n) if n > SPECIAL => Poll::Ready(Err(kind_of(n - SPECIAL).into())),
             Some(n) => {
                 let k = (n as usize).min(buf.len());
                 sh.written.extend_from_slice(&buf[..k]);
@@ -101,10 +131,37 @@ impl AsyncWrite for Carrier {
         }
     }
     fn poll_flush(self: Pin<&mut Self>, _cx: &mut Context<'_>) -> Poll<io::Result<()>> {
-        Poll::Ready(Ok(()))
+        let mut sh = self.sh.borrow_mut();
+        if !sh.scripted || sh.closed {
+            return Poll::Ready(Ok(()));
+        }
+        sh.last_pending[0] = false;
+        match sh.wscript.pop_front() {
+            Some(0) => {
+                sh.last_pending[0] = true;
+                Poll::Pending
+            }
+            Some(n) if n > SPECIAL => Poll::Ready(Err(kind_of(n - SPECIAL).into())),
+            _ => Poll::Ready(Ok(())),
+        }
     }
     fn poll_close(self: Pin<&mut Self>, _cx: &mut Context<'_>) -> Poll<io::Result<()>> {
-        Poll::Ready(Ok(()))
+        let mut sh = self.sh.borrow_mut();
+        if !sh.scripted || sh.closed {
+            return Poll::Ready(Ok(()));
+        }
+        sh.last_pending[0] = false;
+        match sh.wscript.pop_front() {
+            Some(0) => {
+                sh.last_pending[0] = true;
+                Poll::Pending
+            }
+            Some(n) if n > SPECIAL => Poll::Ready(Err(kind_of(n - SPECIAL).into())),
+            _ => {
+                sh.closed = true;
+                Poll::Ready(Ok(()))
+            }
+        }
     }
 }
 
@@ -119,6 +176,9 @@ fn err_code(e: &io::Error) -> u64 {
         io::ErrorKind::InvalidData => 2,
         io::ErrorKind::PermissionDenied => 3,
         io::ErrorKind::WriteZero => 5,
+        io::ErrorKind::ConnectionReset => 6,
+        io::ErrorKind::BrokenPipe => 7,
+        io::ErrorKind::TimedOut => 8,
         _ => 9,
     }
 }
@@ -143,10 +203,17 @@ impl<'a> Cur<'a> {
     }
 }
 
+enum WOp {
+    Write(u64),
+    Flush,
+    Close,
+    WriteV(Vec<u64>),
+}
+
 struct Case {
     f: u64,
     wb: u64,
-    wops: Vec<Option<u64>>, // Some(len) = write, None = flush
+    wops: Vec<WOp>,
     wsc: Vec<u64>,
     tamper: [u64; 4],
     reads: Vec<(u64, u64)>,
@@ -160,8 +227,16 @@ fn parse_case(c: &[u64]) -> Option<Case> {
     let mut wops = Vec::new();
     for _ in 0..k.count()? {
         match k.n()? {
-            0 => wops.push(Some(k.n()?)),
-            1 => wops.push(None),
+            0 => wops.push(WOp::Write(k.n()?)),
+            1 => wops.push(WOp::Flush),
+            2 => wops.push(WOp::Close),
+            3 => {
+                let mut v = Vec::new();
+                for _ in 0..k.count()? {
+                    v.push(k.n()?);
+                }
+                wops.push(WOp::WriteV(v));
+            }
             _ => return None,
         }
     }
@@ -185,7 +260,16 @@ fn parse_case(c: &[u64]) -> Option<Case> {
         return None;
     }
     // resource guard (the model accepts such cases; the generator never produces them)
-    if f > 8 || wb > 8 || wops.iter().flatten().any(|l| *l > 4_000_000) || reads.iter().any(|r| r.0 > 4_000_000) {
+    let too_long = |l: &u64| *l > 4_000_000;
+    if f > 8
+        || wb > 8
+        || wops.iter().any(|o| match o {
+            WOp::Write(l) => too_long(l),
+            WOp::WriteV(v) => v.iter().any(too_long),
+            _ => false,
+        })
+        || reads.iter().any(|r| r.0 > 4_000_000)
+    {
         return None;
     }
     Some(Case { f, wb, wops, wsc, tamper, reads, rsc })
@@ -214,6 +298,39 @@ fn new_pair(
     (a, b, sh)
 }
 
+/// one writer-side record: result(2) write_state(3) bytes-with-carrier lastpending carrier-closed
+fn wrec(
+    res: Result<Poll<io::Result<usize>>, ()>,
+    a: &NoiseSocket<Carrier>,
+    sh: &Rc<RefCell<Shared>>,
+) -> ([u64; 8], bool) {
+    match res {
+        Err(()) => ([3, 0, 0, 0, 0, 0, 0, 0], false),
+        Ok(p) => {
+            let st = a.verif_write_state();
+            let (t, v) = match p {
+                Poll::Ready(Ok(n)) => (0, n as u64),
+                Poll::Pending => (1, 0),
+                Poll::Ready(Err(e)) => (2, err_code(&e)),
+            };
+            let s = sh.borrow();
+            (
+                [
+                    t,
+                    v,
+                    st[0] as u64,
+                    st[1] as u64,
+                    st[2] as u64,
+                    s.written.len() as u64,
+                    s.last_pending[0] as u64,
+                    s.closed as u64,
+                ],
+                true,
+            )
+        }
+    }
+}
+
 fn run_case(rt: &tokio::runtime::Runtime, c: &[u64]) -> Option<Vec<u64>> {
     let case = parse_case(c)?;
     let (mut a, mut b, sh) = new_pair(rt, case.f as usize, case.wb as usize);
@@ -226,42 +343,49 @@ fn run_case(rt: &tokio::runtime::Runtime, c: &[u64]) -> Option<Vec<u64>> {
     out.push(a.verif_buffer_sizes()[1] as u64);
 
     // ---- writer
-    let total_req: usize = case.wops.iter().flatten().map(|l| *l as usize).sum();
+    let total_req: usize = case
+        .wops
+        .iter()
+        .map(|o| match o {
+            WOp::Write(l) => *l as usize,
+            WOp::WriteV(v) => v.iter().map(|l| *l as usize).sum(),
+            _ => 0,
+        })
+        .sum();
     let stream: Vec<u8> = (0..total_req).map(pat).collect();
     sh.borrow_mut().wscript = case.wsc.iter().copied().collect();
     let mut accepted = 0usize;
-    let mut recs: Vec<[u64; 6]> = Vec::new();
+    let mut recs: Vec<[u64; 8]> = Vec::new();
     let mut ok = true;
-    let wrec = |res: Result<Poll<io::Result<usize>>, ()>, a: &NoiseSocket<Carrier>, sent: usize| -> ([u64; 6], bool) {
-        match res {
-            Err(()) => ([3, 0, 0, 0, 0, 0], false),
-            Ok(p) => {
-                let st = a.verif_write_state();
-                let (t, v, fin) = match p {
-                    Poll::Ready(Ok(n)) => (0, n as u64, true),
-                    Poll::Pending => (1, 0, true),
-                    Poll::Ready(Err(e)) => (2, err_code(&e), false),
-                };
-                ([t, v, st[0] as u64, st[1] as u64, st[2] as u64, sent as u64], fin)
-            }
-        }
-    };
     for op in case.wops.iter() {
+        sh.borrow_mut().last_pending[0] = false;
+        let unit = |p: Poll<io::Result<()>>| p.map(|r| r.map(|_| 0usize));
         let res = match op {
-            Some(len) => {
-                let len = *len as usize;
-                let buf = &stream[accepted..accepted + len];
+            WOp::Write(len) => {
+                let buf = &stream[accepted..accepted + *len as usize];
                 catch_unwind(AssertUnwindSafe(|| Pin::new(&mut a).poll_write(&mut cx, buf))).map_err(|_| ())
             }
-            None => catch_unwind(AssertUnwindSafe(|| Pin::new(&mut a).poll_flush(&mut cx)))
-                .map(|p| p.map(|r| r.map(|_| 0usize)))
+            WOp::WriteV(lens) => {
+                let mut slices = Vec::new();
+                let mut p = accepted;
+                for l in lens.iter() {
+                    slices.push(io::IoSlice::new(&stream[p..p + *l as usize]));
+                    p += *l as usize;
+                }
+                catch_unwind(AssertUnwindSafe(|| Pin::new(&mut a).poll_write_vectored(&mut cx, &slices)))
+                    .map_err(|_| ())
+            }
+            WOp::Flush => catch_unwind(AssertUnwindSafe(|| Pin::new(&mut a).poll_flush(&mut cx)))
+                .map(unit)
+                .map_err(|_| ()),
+            WOp::Close => catch_unwind(AssertUnwindSafe(|| Pin::new(&mut a).poll_close(&mut cx)))
+                .map(unit)
                 .map_err(|_| ()),
         };
-        if let (Some(_), Ok(Poll::Ready(Ok(n)))) = (op, &res) {
+        if let (WOp::Write(_) | WOp::WriteV(_), Ok(Poll::Ready(Ok(n)))) = (op, &res) {
             accepted += *n;
         }
-        let sent = sh.borrow().written.len();
-        let (r, cont) = wrec(res, &a, sent);
+        let (r, cont) = wrec(res, &a, &sh);
         recs.push(r);
         if !cont {
             ok = false;
@@ -277,12 +401,21 @@ fn run_case(rt: &tokio::runtime::Runtime, c: &[u64]) -> Option<Vec<u64>> {
         return Some(out);
     }
     // final flush with an all-accepting carrier
-    sh.borrow_mut().wscript.clear();
+    {
+        let mut s = sh.borrow_mut();
+        s.wscript.clear();
+        s.last_pending[0] = false;
+    }
     let res = catch_unwind(AssertUnwindSafe(|| Pin::new(&mut a).poll_flush(&mut cx)))
         .map(|p| p.map(|r| r.map(|_| 0usize)))
         .map_err(|_| ());
-    let sent = sh.borrow().written.len();
-    out.extend(wrec(res, &a, sent).0);
+    let (r, cont) = wrec(res, &a, &sh);
+    out.extend(r);
+    if !cont {
+        // the trace format needs the rest: an empty wire, no reads
+        out.extend([0, 0, 0]);
+        return Some(out);
+    }
 
     // ---- the wire: split into frames, tamper
     let wire = std::mem::take(&mut sh.borrow_mut().written);
@@ -349,43 +482,44 @@ fn run_case(rt: &tokio::runtime::Runtime, c: &[u64]) -> Option<Vec<u64>> {
         s.rscript = case.rsc.iter().copied().collect();
     }
 
-    // ---- reader
+    // ---- reader: polled on after errors and EOF; only a panic ends the run
     let maxbuf = case.reads.iter().map(|r| r.0 as usize).max().unwrap_or(0);
     let mut buf = vec![0u8; maxbuf];
     let mut delivered = 0usize;
-    let mut rrecs: Vec<[u64; 11]> = Vec::new();
+    let mut rrecs: Vec<[u64; 12]> = Vec::new();
     'outer: for (bl, rep) in case.reads.iter() {
         for _ in 0..(*rep).min(REP_MAX) {
             let bl = *bl as usize;
+            sh.borrow_mut().last_pending[1] = false;
             let res = catch_unwind(AssertUnwindSafe(|| Pin::new(&mut b).poll_read(&mut cx, &mut buf[..bl])));
-            let pulled = sh.borrow().pulled as u64;
+            let (pulled, lp) = {
+                let s = sh.borrow();
+                (s.pulled as u64, s.last_pending[1] as u64)
+            };
             match res {
                 Err(_) => {
-                    rrecs.push([3, 0, 0, 0, 0, 0, 0, 0, 0, 0, 0]);
+                    rrecs.push([3, 0, 0, 0, 0, 0, 0, 0, 0, 0, 0, 0]);
                     break 'outer;
                 }
                 Ok(p) => {
                     let st = b.verif_read_state();
-                    let (t, x, y, fin) = match p {
+                    let (t, x, y) = match p {
                         Poll::Ready(Ok(n)) => {
                             let good = n <= bl
                                 && delivered + n <= accepted
                                 && buf[..n] == stream[delivered..delivered + n];
                             let pos = if good { delivered as u64 } else { MISMATCH };
                             delivered += n;
-                            (0, n as u64, pos, false)
+                            (0, n as u64, pos)
                         }
-                        Poll::Pending => (1, 0, 0, false),
-                        Poll::Ready(Err(e)) => (2, err_code(&e), 0, true),
+                        Poll::Pending => (1, 0, 0),
+                        Poll::Ready(Err(e)) => (2, err_code(&e), 0),
                     };
-                    let mut r = [t, x, y, 0, 0, 0, 0, 0, 0, 0, pulled];
+                    let mut r = [t, x, y, 0, 0, 0, 0, 0, 0, 0, pulled, lp];
                     for (j, v) in st.iter().enumerate() {
                         r[3 + j] = *v as u64;
                     }
                     rrecs.push(r);
-                    if fin {
-                        break 'outer;
-                    }
                 }
             }
         }
@@ -437,11 +571,32 @@ fn gen_case(rng: &mut Rng, thorough: bool) -> Vec<u64> {
             continue;
         }
         total += len;
-        wops.extend([0, len]);
+        if rng.chance(10) {
+            // vectored write: only the first non-empty buffer is taken by the default implementation
+            let extra = rng.pick(&[0u64, 1, 7, 100]);
+            let lens: Vec<u64> = match rng.below(4) {
+                0 => vec![len, extra],
+                1 => vec![0, len, extra],
+                2 => vec![0, 0],
+                _ => vec![0, 0, len],
+            };
+            total += extra;
+            wops.extend([3, lens.len() as u64]);
+            wops.extend(lens);
+        } else {
+            wops.extend([0, len]);
+        }
         nops += 1;
         if rng.chance(25) {
             wops.push(1);
             nops += 1;
+        }
+        if rng.chance(6) {
+            // close (possibly early; later calls then hit a closed carrier), sometimes polled twice
+            for _ in 0..rng.range(1, 3) {
+                wops.push(2);
+                nops += 1;
+            }
         }
         // a big write is usually accepted in part: offer the rest again
         if len > mfl && rng.chance(60) {
@@ -469,6 +624,19 @@ fn gen_case(rng: &mut Rng, thorough: bool) -> Vec<u64> {
                     rng.pick(&[1u64, 1, 2, 3, 17, 18, 19, 1000, 30000, 65536, 65537, 65538, 65539, BIG])
                 });
             }
+        }
+    }
+    if rng.chance(15) {
+        for _ in 0..rng.range(1, 3) {
+            wops.push(2);
+            nops += 1;
+        }
+    }
+    // carrier faults on the write side: Ok(0) or an I/O error at a random carrier call
+    if rng.chance(15) {
+        for _ in 0..rng.range(1, 3) {
+            let at = rng.below(wsc.len() as u64 + 1) as usize;
+            wsc.insert(at, SPECIAL + rng.pick(&[0u64, 6, 7, 8, 12]));
         }
     }
     let est_frames = total / mfl + nw + 1;
@@ -521,6 +689,14 @@ fn gen_case(rng: &mut Rng, thorough: bool) -> Vec<u64> {
             }
         }
     }
+    // carrier faults on the read side: a zero-length read or an I/O error at a random carrier call
+    // (the start, mid-header and mid-frame positions all occur because the chunking is random)
+    if rng.chance(15) {
+        for _ in 0..rng.range(1, 3) {
+            let at = rng.below(rsc.len().min(30) as u64 + 1) as usize;
+            rsc.insert(at, SPECIAL + rng.pick(&[0u64, 0, 6, 7, 8, 12]));
+        }
+    }
     // reads
     let mut reads: Vec<u64> = Vec::new();
     let mut nreads = 0u64;
@@ -545,8 +721,11 @@ fn gen_case(rng: &mut Rng, thorough: bool) -> Vec<u64> {
     if !rng.chance(10) {
         // drain until the carrier's EOF (or the error) with a buffer that keeps the trace short
         let bl = rng.pick(&[4096u64, 16384, mfl - 1, mfl, 65520, 70_000]);
-        let rep = (total / bl.min(mfl) + est_frames * 2 + rsc.len() as u64 + 10).min(poll_budget * 2);
-        reads.extend([bl.max(total / poll_budget + 1), rep]);
+        // the socket is polled on after EOF / errors, so a few extra polls exercise the re-poll paths
+        let stalls = rsc.iter().filter(|x| **x == 0 || **x >= SPECIAL).count() as u64;
+        let bl = bl.max(total / poll_budget + 1);
+        let rep = (total / bl.min(mfl) + est_frames + stalls + rng.range(2, 8)).min(poll_budget * 2);
+        reads.extend([bl, rep]);
         nreads += 1;
     }
 
